@@ -160,7 +160,10 @@ func (fs *FS) Apply(ev Event) (Applied, error) {
 		case "close", "fsync", "fdatasync", "lseek", "fcntl":
 			return a, nil
 		}
-		return a, &UnknownCallError{fmt.Sprintf("the process exited inside %s: its effect on the tree is unknown", ev.Name)}
+		if fs.touchesRoot(ev) {
+			return a, &UnknownCallError{fmt.Sprintf("the process exited inside %s on the traced directory: its effect on the tree is unknown", ev.Name)}
+		}
+		return a, nil // e.g. a log line being written to stderr when the process went away
 	}
 	arg := func(i int) string {
 		if i < len(ev.Args) {
@@ -377,6 +380,37 @@ func (fs *FS) Apply(ev Event) (Applied, error) {
 		return a, nil
 	}
 	return a, nil
+}
+
+// touchesRoot reports whether a call whose outcome is unknown could have changed the tree below Root (or the ack file).
+func (fs *FS) touchesRoot(ev Event) bool {
+	for i, a := range ev.Args {
+		a = strings.TrimSpace(a)
+		if strings.HasPrefix(a, "\"") {
+			if b, err := Str(a); err == nil {
+				p := string(b)
+				if strings.HasPrefix(p, "/") {
+					if _, ok := fs.rel(p); ok || filepath.Clean(p) == fs.AckPath {
+						return true
+					}
+				}
+			} else if i > 0 {
+				continue // data argument that was cut off by the exit
+			}
+			continue
+		}
+		if fd, err := strconv.Atoi(a); err == nil && i == 0 {
+			if _, ok := fs.fds[fd]; ok {
+				return true
+			}
+		}
+		if fd, err := strconv.Atoi(a); err == nil && i == 2 && (ev.Name == "renameat" || ev.Name == "renameat2") {
+			if _, ok := fs.fds[fd]; ok {
+				return true
+			}
+		}
+	}
+	return false
 }
 
 type entry struct {
